@@ -12,7 +12,7 @@ RULE = (
     "frame 1-24 (40) px incl. odd sizes, 4:4:4/4:2:2/4:2:0, both coding modes and scan formats, preset/custom signal "
     "ranges up to 16 (32) bits, frame rates, aspect ratios, clean areas, colour specs, slices 1-6 per axis, fragment "
     "sizes 0/1/k/total/more), 1-3 pictures of noise/constant/extreme/ramp/impulse content and a picture-number choice "
-    "(omitted, 0, arbitrary start, wrap at 2^32). Oracle: validator accepts; one callback per input picture in order with "
+    "(omitted, 0, arbitrary start, wrap at 2^32); plus a boundary-directed stratum (lossless HQ, no transform, slice data of exactly 254..257, 510..513, 765..769, 1020..1025 bytes). Oracle: validator accepts; one callback per input picture in order with "
     "all 20 video parameters, coding mode and picture numbers as configured. Non-trivial = configuration with at least two of "
     "{asymmetric, fragments, 4:2:0, fields, depth>8, custom matrix, LD, slices>coeffs} that was encoded (not rejected by the "
     "encoder); distinct by configuration hash."
@@ -42,7 +42,9 @@ def body(case, col):
 
 
 def run_shard(spec, ctx):
-    run_given(E.cases(thorough=ctx.thorough), body, ctx, ctx.pick(190, 6000))
+    run_given(E.cases(thorough=ctx.thorough), body, ctx, ctx.pick(170, 5500))
+    # boundary-directed stratum: coded slice lengths placed on the 255/256-byte length-field boundaries
+    run_given(E.boundary_cases(), body, ctx, ctx.pick(20, 500), salt=1)
 
 
 def replay(data, col):
